@@ -9,6 +9,9 @@ import ZCV.Lemmas.LoggerSetupAll
 import ZCV.Lemmas.LoggerSetupGen
 import ZCV.Lemmas.LogFormat
 import ZCV.Lemmas.LogFormatParse
+import ZCV.Lemmas.LogTemplate
+import ZCV.Lemmas.LogTemplateTokens
+import ZCV.Lemmas.LogTemplateAccept
 /-!
 # C20 — logger sections produce exactly the configured logging setup, once (decision logic)
 
@@ -24,6 +27,11 @@ import ZCV.Lemmas.LogFormatParse
   `FormatterFactory`, logging's validation pattern; compared by hand with the interpreter and the real loader, driver op
   still to be added): `C20_classic_accepts_iff`, `C20_classic_format_safe` (and `_for`, `_wide`, `_typed`),
   `C20_classic_formatter_builds`, `C20_classic_accepted_items`, `C20_classic_accepts_iff_of_field`, `C20_classic_char_needs_range`, `C20_classic_configured_safe`
+* `template` / `safe-template` log formats (`string.Template`), about the model `ZCV/Model/LogTemplate.lean` (compared with
+  the running `FormatterFactory`, `string.Template` and the real loader; driver op `logtpl`): `C20_template_scan_roundtrip`,
+  `C20_template_scan_spec`, `C20_template_known_names`, `C20_template_accepts_iff`, `C20_template_format_safe` (and `_for`), `C20_template_formatter_builds`,
+  `C20_template_format_iff`, `C20_template_errors`, `C20_template_configured_safe`, `C20_safe_template_accepts_all`,
+  `C20_safe_template_never_raises`, `C20_safe_template_format_iff`, `C20_template_str_limit_needed`
 -/
 namespace ZCV.Props.C20
 open ZCV ZCV.Log ZCV.LogSetup
@@ -546,5 +554,188 @@ example : formatSafe "%(name)c".toList (lookup exRecordTable) = true ∧ accepts
   decide +kernel
 
 end ClassicExamples
+
+/-! ## `template` and `safe-template` log formats (`string.Template`)
+
+About `ZCV/Model/LogTemplate.lean`: `scan` models `string.Template.pattern.finditer` (CPython 3.12), `substitute` /
+`safeSubstitute` which calls of `Template.substitute` / `safe_substitute` raise, `acceptsTemplate` / `acceptsSafeTemplate`
+model `FormatterFactory.__init__` for `style template` / `style safe-template` with `arbitrary-fields off` and the default
+formatter class (trial formatting of the sample record, then `logging.Formatter(fmt, datefmt, style='$')`, which runs
+`logging.StringTemplateStyle.validate`; for `safe-template` `validate=False` and the stylist swapped in), and
+`formatTemplate` / `formatSafeTemplate` model `logging.Formatter.formatMessage` on a record at run time. -/
+
+section Template
+open ZCV.LogFormat ZCV.LogTemplate ZCV.LogTemplateSpec ZCV.LogTemplateLemmas
+
+/-- The scanner loses nothing and reads nothing twice: the source texts of the pieces of a template (literal runs,
+    `$$`, `$name`, `${name}`, invalid `$`), put one after the other, are the format string itself. -/
+theorem C20_template_scan_roundtrip (fmt : Str) : (scan fmt).flatMap Piece.text = fmt := lt_scan_text fmt
+
+/-- The scanner is `string.Template`'s pattern, stated without any scanning order or fuel: `scan fmt` is the ONE way of
+    cutting `fmt` into maximal `$`-free literal runs, `$$`, `$identifier` with the longest identifier
+    (`[_a-zA-Z][_a-zA-Z0-9]*`, ASCII only), `${identifier}`, and — only where none of these three starts — an invalid `$`
+    after which scanning resumes at the very next character. -/
+theorem C20_template_scan_spec (fmt : Str) (ps : List Piece) : Tokens fmt ps ↔ ps = scan fmt :=
+  ⟨fun h => (lt_tokens_scan h).symm, fun h => h ▸ lt_scan_tokens fmt.length fmt (Nat.le_refl _)⟩
+
+/-- The literal list `knownNames` of the model is the key list of the sample record `FormatterFactory` formats (the
+    same record as for the classic style), and a name is known exactly when the sample record has it. -/
+theorem C20_template_known_names :
+    knownNames = sampleVars.map (·.1) ∧ ∀ k, k ∈ knownNames ↔ ∃ v, sampleDict k = some v :=
+  ⟨knownNames_eq, lt_sample_known⟩
+
+/-- What `style template` accepts at load time (arbitrary-fields off), read off the format string.  A format (the empty
+    format stands for `${message}`) is accepted exactly when it has no invalid `$` (a `$` followed by neither `$`, an
+    identifier nor `{identifier}`), every `$name` / `${name}` names an attribute of the sample record — the `LogRecord`
+    attributes of Python 3.12, `asctime` and `message` — and there is at least one such placeholder
+    (`logging.Formatter` refuses a format without fields). -/
+theorem C20_template_accepts_iff (fmt : Str) :
+    acceptsTemplate fmt = true ↔
+      Piece.invalid ∉ scan (effectiveTemplate fmt) ∧
+      (∀ n ∈ refs (scan (effectiveTemplate fmt)), n ∈ knownNames) ∧
+      refs (scan (effectiveTemplate fmt)) ≠ [] := by
+  rw [lt_templateAccepted_iff]
+  exact ⟨fun h => ⟨h.noInvalid, h.known, h.hasField⟩, fun h => ⟨h.1, h.2.1, h.2.2⟩⟩
+
+/-- THE PROPERTY for `style template`, as the formatter meets it: a format accepted at load time never raises when the
+    formatter built from it formats a record that has the known attributes with printable values — `asctime` only if the
+    format uses the time (`$asctime` or `${asctime}` occurs in it), as `logging.Formatter.format` sets it only then. -/
+theorem C20_template_format_safe_for (fmt : Str) (h : acceptsTemplate fmt = true) (r : Dict) (hr : HasKnownFor fmt r) :
+    formatTemplate fmt r = .ok () := by
+  have ha := (lt_templateAccepted_iff fmt).mp h
+  rw [lt_formatTemplate_ok, lt_substitute_ok]
+  exact ⟨ha.noInvalid, fun n hn => hr n (ha.known n hn) (fun he => lt_usesTime_of_ref fmt (he ▸ hn))⟩
+
+/-- THE PROPERTY for `style template`: accepted at load time → every record that has all the known attributes (with
+    values whose `str()` works) formats without raising. -/
+theorem C20_template_format_safe (fmt : Str) (h : acceptsTemplate fmt = true) (r : Dict) (hr : HasKnown r) :
+    formatTemplate fmt r = .ok () :=
+  C20_template_format_safe_for fmt h r (fun k hk _ => hr k hk)
+
+/-- An accepted `template` format can be used to build the formatter: `FormatterFactory.__call__`
+    (= `logging.Formatter(fmt, datefmt, style='$')`, which validates the format) does not raise; for `safe-template`
+    building the formatter never raises at all. -/
+theorem C20_template_formatter_builds (fmt : Str) (h : acceptsTemplate fmt = true) :
+    buildTemplateFormatter fmt = .ok () ∧ buildSafeTemplateFormatter fmt = .ok () :=
+  ⟨((lt_acceptsTemplate_iff fmt).mp h).2, rfl⟩
+
+/-- Run time, `style template`, for ANY format and record: formatting works exactly when the format has no invalid `$`
+    and every name it refers to is an attribute of the record whose `str()` works. -/
+theorem C20_template_format_iff (fmt : Str) (r : Dict) :
+    formatTemplate fmt r = .ok () ↔
+      Piece.invalid ∉ scan (effectiveTemplate fmt) ∧
+      ∀ n ∈ refs (scan (effectiveTemplate fmt)), ∃ v, r n = some v ∧ StrOk v := by
+  rw [lt_formatTemplate_ok, lt_substitute_ok]
+
+/-- The exception classes: the load-time check of `style template` raises ValueError (a configuration error) or KeyError
+    (an unknown name; it escapes from the loader as it is) and nothing else; at run time the formatter only ever raises
+    ValueError (`logging` turns the KeyError into one), and so does `safe-template`. -/
+theorem C20_template_errors (fmt : Str) (e : PyErr) :
+    (loadCheckTemplate fmt = .error e → e = .valueError ∨ e = .keyError) ∧
+    (∀ r, formatTemplate fmt r = .error e → e = .valueError) ∧
+    (∀ r, formatSafeTemplate fmt r = .error e → e = .valueError) := by
+  refine ⟨fun h => ?_, fun r h => ?_, fun r h => lt_safeSubstitute_error _ r e h⟩
+  · unfold loadCheckTemplate buildTemplateFormatter at h
+    cases hs : substitute (effectiveTemplate fmt) sampleDict with
+    | error e' =>
+      simp only [hs, Except.error.injEq] at h
+      subst h
+      exact lt_substitute_error _ _ _ hs
+    | ok u =>
+      simp only [hs] at h
+      unfold validate at h
+      split at h
+      · injection h with h; exact .inl h.symm
+      · split at h
+        · injection h with h; exact .inl h.symm
+        · cases h
+  · unfold formatTemplate at h
+    cases hs : substitute (effectiveTemplate fmt) r with
+    | ok u => simp [hs] at h
+    | error e' =>
+      rcases lt_substitute_error _ _ _ hs with he | he <;> subst he <;> simp only [hs, Except.error.injEq] at h <;>
+        exact h.symm
+
+/-- From the configuration text: the `escaped_string` datatype turns `\n \t \b \f \r` into control characters, the
+    result is what is checked at load time and what the formatter uses. -/
+theorem C20_template_configured_safe (raw : Str) (h : acceptsTemplateConfigured raw = true) (r : Dict) (hr : HasKnown r) :
+    formatTemplate (ctrlCharInsert raw) r = .ok () :=
+  C20_template_format_safe _ h r hr
+
+/-- `style safe-template` accepts every format at load time: the trial `safe_substitute` of the sample record cannot
+    raise and the formatter is built without validation. -/
+theorem C20_safe_template_accepts_all (fmt : Str) :
+    acceptsSafeTemplate fmt = true ∧ acceptsSafeTemplateConfigured fmt = true :=
+  ⟨lt_acceptsSafeTemplate fmt, lt_acceptsSafeTemplate _⟩
+
+/-- THE PROPERTY for `style safe-template`: whatever the format and whatever attributes the record has or lacks,
+    formatting never raises — provided `str()` works on the values the record does have (see
+    `C20_template_str_limit_needed` for why this proviso cannot be dropped). -/
+theorem C20_safe_template_never_raises (fmt : Str) (r : Dict) (hr : Printable r) : formatSafeTemplate fmt r = .ok () :=
+  (lt_safeSubstitute_ok _ _).mpr (fun n _ v hv => hr n v hv)
+
+/-- Run time, `style safe-template`, exactly: formatting works iff `str()` works on the value of every attribute the
+    format refers to and the record has. -/
+theorem C20_safe_template_format_iff (fmt : Str) (r : Dict) :
+    formatSafeTemplate fmt r = .ok () ↔
+      ∀ n ∈ refs (scan (effectiveTemplate fmt)), ∀ v, r n = some v → StrOk v :=
+  lt_safeSubstitute_ok _ _
+
+/-- The proviso on `str()` is needed, for both styles: `$levelno` is accepted at load time, and formatting raises
+    ValueError for every record whose level number is an int of more than 4300 digits (Python 3.12 refuses to convert
+    it; `safe_substitute` only catches KeyError). -/
+theorem C20_template_str_limit_needed (n : Int) (hn : 10 ^ 4300 ≤ n.natAbs) (r : Dict)
+    (hr : r "levelno".toList = some (.int n)) :
+    acceptsTemplate "$levelno".toList = true ∧ acceptsSafeTemplate "$levelno".toList = true ∧
+    formatTemplate "$levelno".toList r = .error .valueError ∧
+    formatSafeTemplate "$levelno".toList r = .error .valueError := by
+  have hp : scan (effectiveTemplate "$levelno".toList) = [.named "levelno".toList] := by decide +kernel
+  have hm : ¬ n.natAbs < 10 ^ intMaxStrDigits := by simp only [intMaxStrDigits]; omega
+  refine ⟨by decide +kernel, lt_acceptsSafeTemplate _, ?_, ?_⟩
+  · unfold formatTemplate substitute
+    rw [hp]
+    simp only [runPieces, substPiece, hr, strCheck, hm, if_false]
+  · unfold formatSafeTemplate safeSubstitute
+    rw [hp]
+    simp only [runPieces, safePiece, hr, strCheck, hm, if_false]
+
+example : scan "$$a $name-${levelno}x $ ${9} $é".toList =
+    [.escaped, .lit "a ".toList, .named "name".toList, .lit "-".toList, .braced "levelno".toList, .lit "x ".toList,
+     .invalid, .lit " ".toList, .invalid, .lit "{9} ".toList, .invalid, .lit "é".toList] := by decide +kernel
+/-- ASCII only: `ſ` (U+017F), the Kelvin sign (U+212A) and `é` end an identifier although the pattern is compiled with
+    IGNORECASE -/
+example : scan "$nameſ ${level\u212A}".toList =
+    [.named "name".toList, .lit "ſ ".toList, .invalid, .lit "{level\u212A}".toList] := by decide +kernel
+example : acceptsTemplate "${asctime} $levelname [$name:${lineno}] $message $$".toList = true := by decide +kernel
+example : acceptsTemplate [] = true ∧ acceptsTemplateConfigured "a\\nb\\t${message}".toList = true := by decide +kernel
+/-- refused: no field, an invalid `$`, an unknown name (with the class of the exception) -/
+example : loadCheckTemplate "hello".toList = .error .valueError ∧ loadCheckTemplate "$$message".toList = .error .valueError ∧
+    loadCheckTemplate "$message costs 5 $".toList = .error .valueError ∧
+    loadCheckTemplate "${message} $nosuchfield".toList = .error .keyError ∧
+    loadCheckTemplate "$nosuchfield $".toList = .error .keyError ∧
+    loadCheckTemplate "$ $nosuchfield".toList = .error .valueError ∧
+    loadCheckTemplate "$messageſ".toList = .ok () ∧ loadCheckTemplate "${messageſ}".toList = .error .valueError := by
+  decide +kernel
+example : acceptsSafeTemplate "hello $ ${9} $nosuchfield".toList = true := by decide +kernel
+
+/-- the hypotheses of `C20_template_format_safe` are satisfiable: the record of the classic examples has all the known
+    attributes, and the format is accepted -/
+example : HasKnown (lookup exRecordTable) ∧ Printable (lookup exRecordTable) ∧
+    acceptsTemplate "$asctime ${levelname} $thread $message".toList = true :=
+  ⟨lt_hasKnown_of_table _ (by decide +kernel), lt_printable_of_table _ (by decide +kernel), by decide +kernel⟩
+example : formatTemplate "$asctime ${levelname} $thread $message".toList (lookup exRecordTable) = .ok () := by
+  decide +kernel
+/-- the same record without `asctime`, as a formatter whose format does not use the time sees it -/
+example : usesTimeTemplate "${levelname} $message".toList = false ∧
+    formatTemplate "${levelname} $message".toList (lookup (exRecordTable.filter (fun p => p.1 != "asctime".toList))) = .ok () ∧
+    formatTemplate "$asctime".toList (lookup (exRecordTable.filter (fun p => p.1 != "asctime".toList))) = .error .valueError := by
+  decide +kernel
+/-- an instance of the hypothesis of `C20_template_str_limit_needed` -/
+example : (10 : Nat) ^ 4300 ≤ ((10 : Int) ^ 4300).natAbs := by decide +kernel
+/-- `safe-template` at run time: unknown names and invalid `$` are left alone -/
+example : formatSafeTemplate "hello $ ${9} $nosuchfield $message".toList (lookup exRecordTable) = .ok () ∧
+    formatTemplate "hello $nosuchfield".toList (lookup exRecordTable) = .error .valueError := by decide +kernel
+
+end Template
 
 end ZCV.Props.C20
